@@ -50,11 +50,20 @@ def gen(rng, tier, info):
                 ops.append((-1, ("di", ps)))
             elif k == 3:
                 x, y, w, h = drawgen.inbounds_rect(rng, lw, lh, 200)
-                ops.append((-1, rng.choice([("fs", (x - 2, y - 2, w + 1, h + 1), 5), ("fcg", (x, y, w, h), w * h), ("fs", (lw, 0, 3, 3), 1)])))
+                from props import c04
+                rc = rng.choice(c04.rect_cases(rng, min(lw, 40), min(lh, 40)))      # overhanging each edge / corner
+                ops.append((-1, rng.choice([("fs", (x - 2, y - 2, w + 1, h + 1), 5), ("fcg", (x, y, w, h), w * h), ("fs", (lw, 0, 3, 3), 1),
+                                            ("fcg", rc, rc[2] * rc[3]), ("fcg", (-2, y, w + 2, h), (w + 2) * h)])))
                 nontriv = True
             else:
                 ops.append((-1, ("cl", drawgen.color(rng, cmax))))
                 nontriv = True
+        # the same fill / clear twice in a row (and with an orientation change in between): EACH call needs its own
+        # window set-up, whatever the previous call addressed
+        if ops[-1][1][0] in ("fs", "fcg", "cl") and rng.chance(1, 2):
+            if rng.chance(1, 3):
+                ops.append((-1, ("so", o["rot"], int(o["mir"]))))
+            ops.append(ops[-1] if ops[-1][1][0] != "so" else ops[-2])
         pc["ops"] = ops
         pc["tags"] = ["batch" if pc["batch"] else "nobatch"] + ["op:" + op[0] for _, op in ops]
         pc["nontrivial"] = nontriv
